@@ -542,6 +542,56 @@ func child(args []string) {
 					ref.add(g.Id, g.Header)
 				}
 			}
+		case rng.Intn(100) < 4 && len(ref.List) >= 4: // groups built on INTERMEDIATE groups are offered again and again while a removal of depth >= 2 runs (physical writes delayed at random)
+			h := rng.Intn(len(ref.List) - 3)
+			anc := gc.GetGroupByHeight(uint64(h))
+			if anc == nil {
+				continue
+			}
+			var offers []*types.Group
+			for j := h + 1; j <= len(ref.List)-2 && len(offers) < 3; j++ {
+				offers = append(offers, newGroup(rng, listedID(j), listedID(rng.Intn(h+1)), uint64(10+op)))
+			}
+			logop(fmt.Sprintf("remove-above %d vs adds on %d intermediate groups", h, len(offers)))
+			drng := rand.New(rand.NewSource(rng.Int63()))
+			var dmu sync.Mutex
+			db.VerifWriteHook = func(kind string, key []byte) {
+				dmu.Lock()
+				x, y := drng.Intn(100), drng.Intn(1000)
+				dmu.Unlock()
+				if x < 40 {
+					time.Sleep(time.Duration(300+3*y) * time.Microsecond)
+				}
+			}
+			var stop, accepted int32
+			var attempts int64
+			var wg sync.WaitGroup
+			for _, x := range offers {
+				wg.Add(1)
+				go func(x *types.Group) {
+					defer wg.Done()
+					for atomic.LoadInt32(&stop) == 0 {
+						if gc.AddGroup(x) == nil {
+							atomic.AddInt32(&accepted, 1)
+							return
+						}
+						atomic.AddInt64(&attempts, 1)
+					}
+				}(x)
+			}
+			time.Sleep(time.Duration(rng.Intn(500)) * time.Microsecond)
+			core.VerifRemoveGroupsAbove(anc)
+			atomic.StoreInt32(&stop, 1)
+			wg.Wait()
+			db.VerifWriteHook = nil
+			r.Count("concurrent_episodes", 1)
+			r.Count("removals_with_adds_on_intermediate_groups", 1)
+			r.Count("add_attempts_during_removal", atomic.LoadInt64(&attempts))
+			r.Count("removes", int64(len(ref.List)-1-h))
+			ref.List = ref.List[:h+1]
+			if atomic.LoadInt32(&accepted) > 0 {
+				k.fail("C19:concurrent:add-on-intermediate-group-accepted-during-removal", fmt.Sprintf("while the groups above height %d were removed, AddGroup accepted %d group(s) whose predecessor was one of the groups being removed (never the last group before or after the removal)", h, accepted))
+			}
 		case sqlFaultDue(rng, op): // the SQL side index cannot be written while the group is added
 			g := newGroup(rng, lastID, parent, uint64(10+op))
 			logop("add-valid-with-sql-index-locked " + hx(g.Id))
